@@ -39,7 +39,11 @@ func (m *Machine) CallFunction(fn *ssa.Function, args []Value, env []Value) Valu
 	}
 	m.Res.Funcs[fn.String()] = true
 	m.callStack = append(m.callStack, fn)
-	defer func() { m.callStack = m.callStack[:len(m.callStack)-1] }()
+	defer func() {
+		if n := len(m.callStack); n > 0 {
+			m.callStack = m.callStack[:n-1]
+		}
+	}()
 	m.depth++
 	if m.depth > 400 {
 		m.end("unwind", "call depth exceeded in "+fn.String())
@@ -96,7 +100,9 @@ func (m *Machine) runDefers(fr *frame) {
 		m.panicFrs = append(m.panicFrs, fr)
 		func() {
 			defer func() {
-				m.panicFrs = m.panicFrs[:len(m.panicFrs)-1]
+				if n := len(m.panicFrs); n > 0 {
+					m.panicFrs = m.panicFrs[:n-1]
+				}
 				if r := recover(); r != nil {
 					if gp, ok := r.(*GoPanic); ok {
 						// a panic in a deferred call replaces the current one
